@@ -19,6 +19,7 @@ from ..lang import N, P, Some, freeze
 from .common import generic_replay, run_families, std_case
 
 ROOT = os.path.dirname(os.path.dirname(os.path.dirname(os.path.abspath(__file__))))
+from ..rundir import GEN as _GEN  # noqa: E402
 EXTRA_PROOF_FILES = ["generated/Facts_coercers.v"]
 ASSUMPTIONS = [
     "the stdlib constructors (Decimal, UUID, date/datetime.fromisoformat) are oracles: each case carries the real result of the real constructor",
@@ -30,7 +31,7 @@ TRUSTED_EXTRA = ["fact translator harness/facts/coercers.py (python ast) regener
 
 def regenerate_facts():
     try:
-        d = coercers.emit(os.environ.get("KV_REPO", "/repo"), os.path.join(ROOT, "coq", "generated", "Facts_coercers.v"))
+        d = coercers.emit(os.environ.get("KV_REPO", "/repo"), os.path.join(_GEN, "Facts_coercers.v"))
         if d["_bad"]:
             return True, "coercer shape differs from the model: " + repr(d["_bad"][:2])
         return True, ""
@@ -40,6 +41,8 @@ def regenerate_facts():
 
 V = {k: ("Scalar", (k,), Some((G.DEFAULT_CO[k],)), [], [], []) for k in G.DEFAULT_CO}
 TUP = ("UTupleV", ("AlwaysValid",), [], [], Some(("CoTupleOrList",)))
+TUP_EQ = ("UTupleV", ("AlwaysValid",), [("PEqualTo", ("VTuple", [G.I(1), G.I(2)]))], [], Some(("CoTupleOrList",)))
+TUP_CH = ("UTupleV", ("AlwaysValid",), [("PChoices", [("VTuple", [G.I(1), G.I(2)])])], [("APred", N(0))], Some(("CoTupleOrList",)))
 NTUP = ("NTupleV", [("AlwaysValid",), ("AlwaysValid",)], None, Some(("CoTupleOrList",)))
 
 
@@ -98,6 +101,9 @@ def cases(tier: str, rng: random.Random) -> List[Case]:
     for x in others + [("VList", [G.I(1), G.S("a")]), ("VTuple", [G.I(1), G.S("a")]), ("VList", []), ("VTuple", []), G.LISTSUB]:
         for m in ("sync", "async"):
             out.append(std_case(TUP, x, m, tag="a:tuple"))
+            if m == "async" or TUP_CH[3] == []:
+                out.append(std_case(TUP_CH, x, m, tag="a:tuple"))
+            out.append(std_case(TUP_EQ, x, m, tag="a:tuple"))
             out.append(std_case(NTUP, x, m, tag="a:tuple"))
     return out
 
